@@ -58,6 +58,7 @@ def _sub(k):
         res += ["B", "P", "E", "C", ("M", ())]
     if k == 2:
         res += ["B2"]  # a battery inverter with two batteries counts as two nodes
+        res += ["BB"]  # two battery inverters sharing one battery
     if k >= 2:
         for f in _forest(k - 1, None):
             res.append(("M", f))
@@ -114,6 +115,16 @@ def build(forest, id_scheme):
                 b = new("bat")
                 comps.append(Component(b, CC.BATTERY))
                 conns.append(Connection(i, b))
+            return
+        if t == "BB":
+            i1, i2 = new("B"), new("B")
+            for i in (i1, i2):
+                comps.append(Component(i, CC.INVERTER, InverterType.BATTERY))
+                conns.append(Connection(parent, i))
+            b = new("bat")
+            comps.append(Component(b, CC.BATTERY))
+            conns.append(Connection(i1, b))
+            conns.append(Connection(i2, b))
             return
         if t == "P":
             i = new("P")
@@ -350,7 +361,7 @@ def run(tier: str, seed: int, workers: int):
     acc = pmap_acc(shard, shards, workers)
     meta = {
         "rule": "every forest of subtrees below the grid connection with up to 5 (quick) / 7 (thorough) nodes from {meter with any children, "
-        "battery inverter with 1 or 2 batteries, PV inverter, EV charger, CHP below a CHP-only meter}, unlabelled-isomorphic duplicates "
+        "battery inverter with 1 or 2 batteries, two battery inverters sharing one battery, PV inverter, EV charger, CHP below a CHP-only meter}, unlabelled-isomorphic duplicates "
         "removed, each with two component-id assignments and with allow_fallback off and on; graphs the real validation rejects are "
         "counted and skipped; per graph one unit of power at each device and one unit of unmetered load at each meter not dedicated "
         "to one device type, plus one combined vector; non-trivial = at least two meters or several grid successors",
